@@ -294,6 +294,25 @@ func c18Run(limit int, hist []c18Letter) explore.Result {
 	if d := st.check(); d != "" {
 		res.Fail("retained-data-overwritten", "at the end: "+d)
 	}
+	// "for as long as the holder retains them": also after the connection has gone and another client is served
+	if len(res.Violations) == 0 {
+		nKeptNow := len(st.kept)
+		one.End()
+		if d := st.check(); d != "" {
+			res.Fail("retained-data-overwritten", "after the connection ended: "+d)
+		}
+		c2 := one.Server.Connect()
+		c2.Step(pgproto.Startup("user", "bob", "database", "db2", "application_name", "another-client", "extra", "x"))
+		c2.Step(pgproto.Password("another-password"))
+		c2.Step(pgproto.Query("first-query"))
+		c2.Step(pgproto.Cat(pgproto.Parse("keep", "first-parse"), pgproto.Bind("keep", "keep", nil, [][]byte{[]byte("other-param-value"), filler(300, 33)}, nil), pgproto.Execute("keep", 0), pgproto.Sync()))
+		kept := st.kept
+		st.kept = kept[:nKeptNow] // (judge what the FIRST connection handed out)
+		if d := st.check(); d != "" && len(res.Violations) == 0 {
+			res.Fail("retained-data-overwritten", "after the connection ended and another client was served by the same server: "+d)
+		}
+		st.kept = kept
+	}
 	res.Outcome = "retained"
 	res.Key = fmt.Sprint(limit, c18Names(hist))
 	state := fmt.Sprintf("first-phase/L=%d", limit)
@@ -318,7 +337,7 @@ func init() {
 		ID:          "C18",
 		Level:       "model_checking",
 		Technique:   "exhaustive enumeration of later-traffic histories over message sizes around the 4 KiB allocation granule and the message limit, on a real server whose callbacks retain (without copying) everything they were handed next to a private clone; invariant checked after every message",
-		Rule:        "first phase retains startup parameters (validator + parser), database / user / password, a Query text, a Parse text and two Bind values; then every history of length <= d over 23 (limit 8192) / 22 (limit 1024, below the 4 KiB allocation granule) letters: Query bodies around the granule and the limit, oversized-and-skipped messages of several sizes, two COPY bursts (incl. an oversized CopyData), two Bind batches, two batches on the unnamed statement / portal (the parameter LIST handed to the statement function is retained as well), Close of the portals / statements whose values were retained, re-definition of those names",
+		Rule:        "first phase retains startup parameters (validator + parser), database / user / password, a Query text, a Parse text and two Bind values; then every history of length <= d over 23 (limit 8192) / 22 (limit 1024, below the 4 KiB allocation granule) letters: Query bodies around the granule and the limit, oversized-and-skipped messages of several sizes, two COPY bursts (incl. an oversized CopyData), two Bind batches, two batches on the unnamed statement / portal (the parameter LIST handed to the statement function is retained as well), Close of the portals / statements whose values were retained, re-definition of those names; at the end the connection is closed and another client is served: everything retained is checked again",
 		Assumptions: []string{"CopyData payload views are not retained: the statement lists query texts, parameter values, client parameters and passwords"},
 		Enumerate:   c18Enumerate,
 		Bounds: func(tier string) map[string]any {
